@@ -42,3 +42,8 @@ def boot_drawing():
     boot()
     import schemdraw
     schemdraw.use("svg")
+    # display seam: a drawing that leaves its `with` block shows itself - in a terminal session by writing
+    # /tmp/tmp*.svg and spawning a viewer process.  The simulated session is an inline (notebook) one, where showing
+    # is the front end's business: nothing is written outside the simulated device and no process is spawned.
+    import schemdraw.backends.svg as _svg
+    _svg.inline = True
